@@ -64,7 +64,7 @@ def cli_reference(db: str, tgt: str | None, targs: list[str]) -> dict:
 
 
 def _enum_cli(tier: str):
-    maxlen = 3 if tier == "quick" else 5
+    maxlen = 3 if tier == "quick" else 4  # 16^4 tails x 7 targets x 5 option forms = 2.4 million vectors, still enumerated completely
     for db in DB_FORMS:
         yield {"db": db, "tgt": None, "targs": []}
         for tgt in TGT_FORMS:
